@@ -137,6 +137,33 @@ struct Engine
             });
     }
 
+    // const access paths are read-only: what get<I> hands out for a const_reference / const vector cannot be written through
+    void check_read_only()
+    {
+        bool writable = false;
+        for_each_index<NF>(
+            [&](auto I)
+            {
+                using Dc = typename Cfg::template DescAt<I>;
+                using T = typename Dc::Type;
+                using CR = decltype(cntgs::get<I>(std::declval<const typename Vec::const_reference&>()));
+                using CE = decltype(cntgs::get<I>(std::declval<const typename Vec::value_type&>()));
+                if constexpr (Dc::KIND == 'F' || Dc::KIND == 'V')
+                {
+                    if (!std::is_const_v<typename std::decay_t<CR>::element_type> || !std::is_const_v<typename std::decay_t<CE>::element_type>) writable = true;
+                }
+                else
+                {
+                    if (!std::is_const_v<std::remove_reference_t<CR>> || !std::is_const_v<std::remove_reference_t<CE>>) writable = true;
+                }
+                (void)sizeof(T);
+            });
+        using CIt = typename Vec::const_iterator;
+        if (!std::is_same_v<decltype(*std::declval<CIt>()), typename Vec::const_reference>) writable = true;
+        if (!std::is_same_v<decltype(std::declval<const Vec&>()[0]), typename Vec::const_reference>) writable = true;
+        if (writable) viol("const_access_writable", "a const access path (const_reference, const element, const_iterator, const operator[]) hands out writable access");
+    }
+
     void cross_read(const char* after)
     {
         Vec& vec = *v;
@@ -478,6 +505,7 @@ struct Engine
             G::emplace_back(*v, m.e.back());
         }
         cross_read("build");
+        check_read_only();
         const int steps = static_cast<int>(rng.range(max_steps / 2, max_steps));
         for (step = 1; step <= steps && !out().viol_in_case; ++step)
         {
